@@ -12,7 +12,8 @@
 // snapshot of the state. Everything that happens is appended to $VERIF_CM_LOG (the application appends its own records to
 // the same file: X = executed simcall as the application sees it, S = state fingerprint); all judging is done in Python.
 //   W <k>                               walk k starts from the initial state
-//   Q <n> | <aid> <enabled> <max_considered> { <fields> ## <to_string(true)> }* | ...    actors' status (after the app's S)
+//   Q <n> | <aid> <enabled> <max_considered> [[ <fields> ## <to_string(true)> ## <current sub-transition> ]]* | ...
+//                                       actors' status (after the app's S record)
 //   P <aid1> <t1> <aid2> <t2>           pair test starts (state = the last Q outside a pair test)
 //   B <1|2>                             branch starts from the snapshot
 //   C <aid> <times> | <fields> | <to_string(true)>     transition executed, as decoded by the checker (after the app's X)
@@ -229,7 +230,7 @@ static Status get_status(RemoteApp& app)
     n++;
     r += " | " + S(a->get_aid().c_val()) + " " + S(a->is_enabled()) + " " + S(a->get_max_considered());
     for (auto const& t : a->pending_transitions_)
-      r += " { " + fields(t.get()) + " ## " + t->to_string(true) + " ## " + current_of(t.get()) + " }";
+      r += " [[ " + fields(t.get()) + " ## " + t->to_string(true) + " ## " + current_of(t.get()) + " ]]";
     if (a->is_enabled())
       for (int t = 0; t < a->get_max_considered(); t++)
         st.enabled.emplace_back(a->get_aid().c_val(), t);
